@@ -415,11 +415,17 @@ pub fn addr_in(rng: &mut Rng, reg: Region, n: u32) -> u32 {
         Region::Vec => (0, 0xff),
     };
     let last = hi + 1 - n; // last start address that still fits
-    let mut a = match rng.below(6) {
+    let mut a = match rng.below(8) {
         0 => lo + rng.below(8) as u32,
         1 => last - rng.below(8) as u32,
+        // carry boundaries of the address arithmetic: around multiples of 64 KiB and of 256
+        2 => ((lo + rng.below((last - lo + 1) as u64) as u32) & !0xffff).wrapping_add(rng.below(12) as u32).wrapping_sub(6),
+        3 => ((lo + rng.below((last - lo + 1) as u64) as u32) & !0xff).wrapping_add(rng.below(12) as u32).wrapping_sub(6),
         _ => lo + rng.below((last - lo + 1) as u64) as u32,
     };
+    if a < lo || a > last {
+        a = lo + rng.below((last - lo + 1) as u64) as u32;
+    }
     if n > 1 {
         a &= !1;
     }
